@@ -212,6 +212,7 @@ type Conn struct {
 	connectionClosedByUser bool
 	closeLock              sync.Mutex
 	closed                 *closer.Closer
+	closeNotifyOnce        sync.Once
 
 	readDeadline  *deadline.Deadline
 	writeDeadline *deadline.Deadline
@@ -2317,6 +2318,21 @@ func (c *Conn) recvHandshake() <-chan dtlshandshake.RecvHandshakeState {
 }
 
 func (c *Conn) notify(ctx context.Context, level alert.Level, desc alert.Description) error {
+	if desc == alert.CloseNotify {
+		// close_notify is sent at most once per connection: the reply to the peer's
+		// close_notify (reader goroutine) and Close (application) may both get here.
+		var err error
+		c.closeNotifyOnce.Do(func() {
+			err = c.writeAlert(ctx, level, desc)
+		})
+
+		return err
+	}
+
+	return c.writeAlert(ctx, level, desc)
+}
+
+func (c *Conn) writeAlert(ctx context.Context, level alert.Level, desc alert.Description) error {
 	common := dtlsstate.CommonState(c.state)
 	if vtrace.Enabled {
 		vtrace.Emit(c.handshakeConfig, "alert.out", "client", common.IsClient, "level", int(level), "desc", int(desc),
